@@ -146,7 +146,7 @@ def run(ctx, deep=False):
 
     ctx.rule = (
         "random object-graph histories (1-3 rounds of 2-8 (quick) / 1-4 rounds of 2-12 (thorough) mutations: create, re-parent, delete with "
-        "cascades, orphan, many-to-many link/unlink, post_update reference, rename) over fourteen relationship families (harness/lib_graph.py), each round ended by "
+        "cascades, orphan, many-to-many link/unlink, post_update reference, rename) over fifteen relationship families (harness/lib_graph.py), each round ended by "
         "flush or commit on SQLite with foreign_keys=ON; every flush's registered dependencies are compared with the Lean tables; "
         "non-trivial = more than two DML statements"
     )
